@@ -35,7 +35,7 @@ func Spec() *run.Spec {
 			"graph size is bounded so that the number of dependency paths below any node stays <= 400 (polyform's Outdated() walks every path)",
 			"phase lazy-inputs: a node may re-execute when a parameter below a wired-but-unread input changed (the property allows it); State() == Processed is not demanded there, State() == Stale only for changes in inputs that were read",
 		},
-		MinNontrivial: map[string]int{"quick": 40, "thorough": 80},
+		MinNontrivial: map[string]int{"quick": 100, "thorough": 300},
 		MinObserved: map[string]int64{
 			"idle_rereads":                             2000,
 			"reads_mixed_dep_versions":                 300,
@@ -55,13 +55,13 @@ func Spec() *run.Spec {
 				if t == "thorough" {
 					return 20000
 				}
-				return 600
+				return 1200
 			}, Run: func(c *run.Ctx) run.Result { return history(c, false) }, Batch: 25, CPUBudgetS: 60},
 			{Name: "lazy-inputs", Cases: func(t string) int {
 				if t == "thorough" {
-					return 4000
+					return 6000
 				}
-				return 150
+				return 300
 			}, Run: func(c *run.Ctx) run.Result { return history(c, true) }, Batch: 25, CPUBudgetS: 60},
 		},
 	}
